@@ -371,3 +371,27 @@ class LengthOfLongestRunAscending:
         return result == c.call("Perm.longestruns_ascending", self)[0]
 
     modifies = ()
+
+
+@contract("Perm.longestruns_descending", params={"self": "Perm"}, returns="int+IntList", props=P)
+class LongestRunsDescending:
+    # the longest DESCENDING runs are the longest ascending runs of the complement (n-1-p[i]: every descent becomes an ascent)
+    def requires(c, self):
+        return c.is_perm(self)
+
+    def ensures(c, self, result):
+        want = c.call("Perm.longestruns_ascending", c.call("Perm.complement", self))
+        return c.and_(result[0] == want[0], c.seq_eq(result[1], want[1]))
+
+    modifies = ()
+
+
+@contract("Perm.length_of_longestrun_descending", params={"self": "Perm"}, returns="int", props=P)
+class LengthOfLongestRunDescending:
+    def requires(c, self):
+        return c.is_perm(self)
+
+    def ensures(c, self, result):
+        return result == c.call("Perm.longestruns_ascending", c.call("Perm.complement", self))[0]
+
+    modifies = ()
